@@ -33,6 +33,11 @@ type c21Model struct {
 	getSeq, setSeq, clearSeq, ipToOrdinal *types.Func // AllocationBlock methods
 
 	mutMemo map[*ssa.Function]int // 1 = in progress, 2 = no, 3 = yes
+
+	// entry (engine_C21lift.go): while a helper frame is analysed, the call
+	// through which each function of the current call string was entered;
+	// parameters resolve to the arguments of that call.  nil = intra-procedural.
+	entry map[*ssa.Function]*ssa.Call
 }
 
 func c21NewModel(c *Ctx, p *Prog) *c21Model {
@@ -116,7 +121,7 @@ func (m *c21Model) isBlockType(t types.Type) bool { return c21SameType(t, m.bloc
 
 // allocElem: v is (a load of ... of) &Allocations[ord]; returns ord.
 func (m *c21Model) allocElem(v ssa.Value) (ssa.Value, bool) {
-	ia, ok := c21StripLoads(v).(*ssa.IndexAddr)
+	ia, ok := c21StripLoads(m.upParam(v)).(*ssa.IndexAddr)
 	if !ok || fieldVar(ia.X) != m.fAllocations {
 		return nil, false
 	}
